@@ -113,8 +113,9 @@ def gen_enum_harness(item, d, hname, arm_budget=200):
     idents = []
     for m in d["members"]:
         c = by_norm.get(norm(m["name"]))
-        if not c and norm(m["name"]) in RUST_KEYWORDS:
-            c = by_norm.get(norm(m["name"]) + "x")     # Rust keywords are escaped by an `X` suffix (SELF -> SelfX)
+        if not c:
+            # identifiers that would clash in Rust (keywords, `Error` vs Self::Error) carry an `X` suffix: SELF -> SelfX
+            c = by_norm.get(norm(m["name"]) + "x")
         if not c or len(c) != 1:
             raise vlib.AnchorLost("enumerator %s::%s has no unique Rust variant" % (d["name"], m["name"]))
         idents.append(c[0])
